@@ -448,6 +448,23 @@ def b_set(ex, pos, kws, st):
 
 
 # ----------------------------------------------------------------------------- re
+sre_tree = z3.Function("sre_tree", M.S, Obj)       # re._parser.parse(pattern): the parse tree (a list of (op, av))
+
+
+def b_sre_parse(ex, pos, kws, st):
+    (p,) = pos
+    z = ex.term(p, st)
+    _trust(ex, "re._parser.parse(p) returns the parse tree the specification inL is defined on (re.error when the "
+               "pattern does not compile)")
+    out = []
+    for s, ok in ex.branch(st, M.re_ok(M.sval(z))):
+        if ok:
+            out.append((s, T(sre_tree(M.sval(z)), "list")))
+        else:
+            out.append((s, Raised("re.error", T(M.fresh("reerr"), "re.error"), "sre.parse")))
+    return out
+
+
 def b_re_compile(ex, pos, kws, st):
     (p,) = pos
     z = ex.term(p, st)
